@@ -8,6 +8,16 @@ sys.path.insert(0, ROOT)
 import propmap  # noqa: E402
 
 
+def not_applicable():
+    out = [{'property_id': k, 'reason': v} for k, v in sorted(propmap.NOT_APPLICABLE.items())]
+    ids = [json.loads(l)['id'] for l in open(os.path.join(ROOT, 'properties.jsonl')) if l.strip()]
+    for i in ids:
+        if i not in propmap.PROPS and i not in propmap.NOT_APPLICABLE:
+            out.append({'property_id': i, 'reason': 'not claimed at this commit: the units that would carry its contracts '
+                        '(DESIGN.md section 4) are not built yet, so no check is registered for it'})
+    return sorted(out, key=lambda x: x['property_id'])
+
+
 def main():
     checks = []
     for pid in sorted(propmap.PROPS):
@@ -44,7 +54,7 @@ def main():
         'engines': [{'name': 'cxx2c+dfcc', 'path': 'tools/', 'serves_properties': sorted(propmap.PROPS),
                      'kind_free_text': 'clang JSON AST -> C translator, contract weaver, goto-instrument dfcc / cbmc runner, native ASan replay drivers'}],
         'checks': checks,
-        'not_applicable': [{'property_id': k, 'reason': v} for k, v in sorted(propmap.NOT_APPLICABLE.items())],
+        'not_applicable': not_applicable(),
         'notes': 'exit 2 from a check means undecided (extraction/translation failure, solver timeout, vacuity), never a pass and never a violation',
     }
     with open(os.path.join(ROOT, 'MANIFEST.json'), 'w') as fh:
